@@ -88,7 +88,10 @@ func (sc *Scenario) StatePDUs() ([]gmsl.PDU, error) {
 }
 
 // EventPDU builds the event under test.
-func (sc *Scenario) EventPDU() (gmsl.PDU, error) {
+func (sc *Scenario) EventPDU() (gmsl.PDU, error) { return sc.EventPDUWithID("") }
+
+// EventPDUWithID is EventPDU with a chosen event ID ("" = the standard one), for batches of several events under test.
+func (sc *Scenario) EventPDUWithID(want string) (gmsl.PDU, error) {
 	ev := sc.Event
 	isCreate := ev.Type == "m.room.create" && ev.StateKey != nil && *ev.StateKey == ""
 	prev := ev.Prev
@@ -102,6 +105,10 @@ func (sc *Scenario) EventPDU() (gmsl.PDU, error) {
 	}
 	if isCreate && refversions.Get(sc.Version).DomainlessRoomIDs {
 		id = CreateID
+	}
+	if want != "" {
+		id = want
+		e.EventID = want
 	}
 	return mk(sc.Version, id, e)
 }
@@ -225,6 +232,33 @@ func (sc *Scenario) PseudoEncode(users []string) (*Scenario, spec.UserIDForSende
 		return spec.NewUserID(string(s), true)
 	}
 	return out, q
+}
+
+
+// HistoricalEncode renames every listed user to a user ID of the "historical" grammar (capital letters and '+' in the
+// localpart, same server). The auth rules are stated over users, never over the spelling of a localpart, so the verdict of
+// a scenario must not change under a consistent renaming.
+func (sc *Scenario) HistoricalEncode(users []string) *Scenario {
+	var pairs []string
+	for _, u := range users {
+		i := strings.Index(u, ":")
+		if i < 2 {
+			continue
+		}
+		pairs = append(pairs, u, "@"+strings.ToUpper(u[1:2])+u[1:i]+"+H"+u[i:])
+	}
+	rep := strings.NewReplacer(pairs...)
+	out := &Scenario{Version: sc.Version, Event: sc.Event}
+	for _, se := range sc.State {
+		se.Sender, se.StateKey, se.Content = rep.Replace(se.Sender), rep.Replace(se.StateKey), rep.Replace(se.Content)
+		out.State = append(out.State, se)
+	}
+	out.Event.Sender, out.Event.Content = rep.Replace(sc.Event.Sender), rep.Replace(sc.Event.Content)
+	if sc.Event.StateKey != nil {
+		sk := rep.Replace(*sc.Event.StateKey)
+		out.Event.StateKey = &sk
+	}
+	return out
 }
 
 // RunWith is Run with the caller's sender-ID resolution.
